@@ -628,7 +628,12 @@ class Contract:
 
 class LoopSpec:
     def __init__(self, invariant=None, modifies=None, variant=None, fold=None, ghost=None, invariants=None,
-                 each=None, at_entry=None, iteration_raises=(), generic=None, each_old="entry"):
+                 each=None, at_entry=None, iteration_raises=(), generic=None, each_old="entry", roles=None):
+        # roles: {name used in the clauses: predicate over the value a local has when the loop is reached}.  A clause
+        # parameter that is not a local of the code (the local was renamed) is bound to the one local whose entry
+        # value satisfies the predicate -- the clause speaks about "the accumulator that starts empty", "the state
+        # that starts at the seed", not about a spelling.  No unique match: the function is outside reach.
+        self.roles = roles or {}
         # each_old: what old(...) means inside `each` clauses of a symbolic-range loop: the state at function
         # "entry" (default) or at the "head" of the iteration being verified
         self.each_old = each_old
